@@ -406,6 +406,14 @@ def callable_parts(klass, expr, func=None):
         ds = [s_ for s_ in ast.walk(func.node) if isinstance(s_, ast.FunctionDef) and s_.name == expr.id and s_ is not func.node]
         if len(ds) == 1 and ds[0].args.args:
             return ds[0].args.args[0].arg, list(ds[0].body)
+        # ... or a plain function of the module (one definition, not re-bound)
+        mod = getattr(func, 'module', None)
+        tree = getattr(mod, 'tree', None)
+        if not ds and tree is not None:
+            ds = [s_ for s_ in tree.body if isinstance(s_, ast.FunctionDef) and s_.name == expr.id]
+            rebound = any(isinstance(n_, ast.Name) and n_.id == expr.id and isinstance(n_.ctx, (ast.Store, ast.Del)) for n_ in ast.walk(tree))
+            if len(ds) == 1 and ds[0].args.args and not rebound and not ds[0].decorator_list:
+                return ds[0].args.args[0].arg, list(ds[0].body)
         return None
     if isinstance(expr, ast.Attribute) and isinstance(expr.value, ast.Name) and klass is not None and klass.has(expr.attr):
         f = klass.method(expr.attr)
